@@ -1817,6 +1817,30 @@ def c14(tier):
             if len(run.drift_samples) < 5:
                 run.drift_samples.append({"input": t, "model": b["out"]})
         run.add_event({"props": ["C14bullet"], "rows": o["rows"], "doc": o["doc"], "bullet": b["bullet"]}, {"input": t, "bullet": b["bullet"]})
+    # bullets and arrowheads in company: every neighbourhood (up to two neighbours) of a bullet or arrowhead character among
+    # strokes, junctions, other bullets and arrowheads and a letter; where the model attaches the bullet / ends a line in an
+    # arrowhead, the real document must (C14m)
+    cfgm = write_cfg("MC_C14m", {"K": 2, "Centres": tla_set([111, 79, 42, 86, 118, 94, 60, 62]),
+                                 "Around": tla_set([45, 124, 47, 92, 43, 111, 86, 42, 97] if tier == "quick" else
+                                                   [45, 124, 47, 92, 43, 111, 79, 86, 118, 42, 97, 35, 58, 126, 39, 46])},
+                     ["Emit"])
+    resm = run.model("MC_Nbhd", cfgm, timeout=10000)
+    behm = common.tla_json_strings(resm["lines"], "REPLAY")
+    mt = [rows_text(b["rows"]) for b in behm]
+    mo = observe.observe([{"input": t} for t in mt], tag="C14Q")
+    for b, t, o in zip(behm, mt, mo):
+        run.replayed += 1
+        if o["out"] != "return" or real_tuples(o["doc"]) != model_tuples(b["out"]):
+            run.drift += 1
+            if len(run.drift_samples) < 5:
+                run.drift_samples.append({"input": t, "model": b["out"]})
+        markers = [[tp[3], tp[4], tp[6][4:]] for tp in b["out"] if tp[0] == "line" and str(tp[6]).startswith("end_marked")]
+        polys = [[min(tp[1:-1][0::2]), min(tp[1:-1][1::2]), max(tp[1:-1][0::2]), max(tp[1:-1][1::2])] for tp in b["out"]
+                 if tp[0] == "polygon" and len(tp) == 8]
+        if markers or polys:
+            run.add_event({"props": ["C14m"], "rows": o["rows"], "doc": o["doc"], "expect": {"markers": markers, "polys": polys}},
+                          {"input": t, "expect": {"markers": markers, "polys": polys}})
+    run.validate(shard=3000)
     cases = []
     lens = list(range(1, maxlen + 1))
     for d, gl in ARROWS.items():
